@@ -310,9 +310,18 @@ func runC11(r *Run) {
 	if !valid {
 		nPipe = 0
 	}
+	// the client shuts down its sending side right after the request (printf | nc,
+	// a half-closing proxy) and the handler is busy for a moment before it calls
+	// Accept: net/http's background read sees the end of the stream and cancels
+	// the request's context. Whether the request is upgraded depends on the
+	// request alone, so a valid one must still get its 101.
+	halfClose := !noHijack && t.Pct(12)
 	sig := fmt.Sprintf("valid=%v", valid)
 	if noHijack {
 		sig += ",no-hijacker"
+	}
+	if halfClose {
+		sig += ",client-half-closed"
 	}
 	r.Class = fmt.Sprintf("%s/%s/%s/c%d/u%d/w%d/k%d/s%d/p%d", sig, method, version, ci, ui, wi, ki, si, nPipe)
 	r.Nontrivial = true
@@ -364,6 +373,12 @@ func runC11(r *Run) {
 	mux.HandleFunc("/plain", func(w http.ResponseWriter, req *http.Request) { io.WriteString(w, "plain") })
 	mux.HandleFunc("/ws", func(w http.ResponseWriter, req *http.Request) {
 		acceptCalled = true
+		if halfClose {
+			r.S.Sleep(10 * time.Millisecond)
+			if req.Context().Err() != nil {
+				r.S.Count("probe.request-context-done-before-accept")
+			}
+		}
 		mode := websocket.CompressionDisabled
 		if compress {
 			mode = websocket.CompressionContextTakeover
@@ -434,9 +449,15 @@ func runC11(r *Run) {
 				r.S.Park("a.client.piece")
 			}
 		}
+		if halfClose {
+			ce.CloseWrite()
+		}
 		br := bufio.NewReader(ce)
 		status, hdr, _, rerr = readHTTPResponse(br, method == "HEAD")
 		if rerr != nil {
+			return
+		}
+		if halfClose && status != 101 {
 			return
 		}
 		if status == 101 {
